@@ -221,7 +221,7 @@ fn replay(path: &str, worker: bool) -> i32 {
     let run = || -> Result<explore::Acc, String> {
         match kind {
             "state" => props::core::replay_state(&prop, r),
-            "c05-variant" | "c05-collision" => props::c05::replay(r),
+            "c05-variant" | "c05-collision" | "c05-reached" => props::c05::replay(r),
             "c12-string" => props::c12::replay(r),
             "c17-string" => props::c17::replay(r),
             "e3-word" => props::e3::replay(&prop, r),
@@ -230,7 +230,7 @@ fn replay(path: &str, worker: bool) -> i32 {
             "c09-root" => props::c09::replay(r),
             "c10-root" | "c10-history" | "c10-game" => props::c10::replay(r),
             "e5-schedule" if prop == "C19" => props::c19::replay(r),
-            "e5-schedule" => props::c14::replay(r, &props::c14::oracle),
+            "e5-schedule" | "c14-deep" => props::c14::replay(r, &props::c14::oracle),
             "c13-case" => props::c13::replay(r),
             "c15-mobility" | "c15-stack" | "c15-autoplay" => props::c15::replay(r),
             "c19-history" | "c19-process" => props::c19::replay(r),
